@@ -2,7 +2,10 @@
 //! stdin (one per line, hex of valid UTF-8). Per input one line, tab separated, Coq term syntax
 //! (see c16.rs for the encoding of texts and token streams):
 //!
-//!   `<status>\t<in_nbytes>\t<in_scalars>\t<in_lex>\t<out_nbytes>\t<out_scalars>\t<out_lex>\t<out_parse>\t<out_hex>`
+//!   `<status>\t<in_nbytes>\t<in_scalars>\t<in_lex>\t<out_nbytes>\t<out_scalars>\t<out_lex>\t<out_parse>\t<out_hex>\t<cmap>`
+//!
+//!   cmap       the REAL `CommentMap::from_src(input)` (through `Formatter::with_comments_context`): its entries
+//!              in BTreeMap iteration order as `XCmap [(span, kind);...]`, or `XCmapNone` when it errs/panics
 //!
 //!   status     `fmt-ok` | `fmt-err` (input does not parse / formatter error: not applicable) | `fmt-panic <msg>`
 //!   out_parse  `1` the formatted text parses without diagnostics' errors | `0` | `2` parse_file panicked
@@ -21,17 +24,43 @@ fn handle(line: &str) -> String {
     let bytes = if line == "-" { vec![] } else { hex_decode(line) };
     let text = String::from_utf8(bytes).expect("case is not valid UTF-8");
     let (in_scal, _in_ucls, in_lex) = c16::dump_text(&text);
+    let cm = guarded(|| {
+        let mut f = swayfmt::Formatter::default();
+        if f.with_comments_context(&text).is_err() {
+            return None;
+        }
+        let v: Vec<String> = f
+            .comments_context
+            .map
+            .0
+            .iter()
+            .map(|(bs, c)| {
+                let k = match c.comment_kind {
+                    sway_ast::token::CommentKind::Newlined => 0,
+                    sway_ast::token::CommentKind::Trailing => 1,
+                    sway_ast::token::CommentKind::Inlined => 2,
+                    sway_ast::token::CommentKind::Multilined => 3,
+                };
+                format!("({},{})", ((bs.start as u64) << 31) | bs.end as u64, k)
+            })
+            .collect();
+        Some(c16::coq_list(&v))
+    });
+    let cm_s = match cm {
+        Ok(Some(s)) => format!("XCmap {}", s),
+        _ => "XCmapNone".to_string(),
+    };
     let r = guarded(|| {
         let mut f = swayfmt::Formatter::default();
         f.format(text.as_str().into()).map_err(|e| e.to_string())
     });
     match r {
         Err(p) => format!(
-            "fmt-panic {}\t{}\t{}\t{}\t-\t-\t-\t-\t-",
+            "fmt-panic {}\t{}\t{}\t{}\t-\t-\t-\t-\t-\t{}",
             p.chars().map(|c| if c.is_control() { ' ' } else { c }).take(160).collect::<String>(),
-            text.len(), in_scal, in_lex
+            text.len(), in_scal, in_lex, cm_s
         ),
-        Ok(Err(_)) => format!("fmt-err\t{}\t{}\t{}\t-\t-\t-\t-\t-", text.len(), in_scal, in_lex),
+        Ok(Err(_)) => format!("fmt-err\t{}\t{}\t{}\t-\t-\t-\t-\t-\t{}", text.len(), in_scal, in_lex, cm_s),
         Ok(Ok(out)) => {
             let (out_scal, _u, out_lex) = c16::dump_text(&out);
             let p = guarded(|| {
@@ -40,8 +69,8 @@ fn handle(line: &str) -> String {
                 r.is_ok() && !handler.has_errors()
             });
             let ps = match p { Ok(true) => "1", Ok(false) => "0", Err(_) => "2" };
-            format!("fmt-ok\t{}\t{}\t{}\t{}\t{}\t{}\t{}\t{}", text.len(), in_scal, in_lex, out.len(), out_scal, out_lex, ps,
-                    if out.is_empty() { "-".to_string() } else { hex::encode(&out) })
+            format!("fmt-ok\t{}\t{}\t{}\t{}\t{}\t{}\t{}\t{}\t{}", text.len(), in_scal, in_lex, out.len(), out_scal, out_lex, ps,
+                    if out.is_empty() { "-".to_string() } else { hex::encode(&out) }, cm_s)
         }
     }
 }
